@@ -29,13 +29,13 @@ pub fn def() -> PropDef {
     PropDef {
         id: "C09",
         level: "exploration",
-        rule: "(A) every frame (Init / Sync / Abort) of every session transcript between all ordered pairs of small reachable states: encode with the crate's codec, concatenate the whole session, feed the decoder with every split into two chunks and (transcripts <= 300 bytes in quick, <= 800 bytes in thorough) every split into three chunks, every truncation (also through the decoder's end-of-stream entry point: a stream ending inside a frame is an error, at a boundary a clean end), every frame's length prefix altered (shorter by 1 and 2, halved, 0, 1, longer by 1, longer by the next frame) with the following frames left behind it and every byte of the first frame replaced by 5 values — the stream decoder must do exactly what decoding the declared frames one by one in isolation does —, length prefixes MAX / MAX+1 / u32::MAX, and encode several frames into one shared buffer; (B) every decoder (frame, SignedEntry, ProtocolMessage, AuthorHeads, DocTicket bytes and string form, Capability::from_raw over all 256 kinds, FilterKind::from_str, DownloadPolicy, the hex text form of Author / NamespaceSecret / AuthorId / NamespaceId / the two public-key types) on every byte string up to length 2 (3 in thorough) and on every single-byte replacement (position x 255 values; a 4-value subset beyond the first 48 bytes in the quick tier) of valid encodings, each call under catch_unwind; values that decode are exercised (accessors, signature verification, processing by a real replica); (C) pinned encodings: the suite's three hex snapshots and, for every entry of the universe, equality with an independent hand-written layout encoder; non-trivial = distinct inputs that decode successfully after a corruption, or chunkings that cut inside a frame",
+        rule: "(A0) entries with keys of 63 .. 20000 bytes (around the steps of the length prefixes and far beyond): the entry, every message of a real session carrying it and their frames (whole and cut at seven positions) survive encode-then-decode and the session converges; (A) every frame (Init / Sync / Abort) of every session transcript between all ordered pairs of small reachable states: encode with the crate's codec, concatenate the whole session, feed the decoder with every split into two chunks and (transcripts <= 300 bytes in quick, <= 800 bytes in thorough) every split into three chunks, every truncation (also through the decoder's end-of-stream entry point: a stream ending inside a frame is an error, at a boundary a clean end), every frame's length prefix altered (shorter by 1 and 2, halved, 0, 1, longer by 1, longer by the next frame) with the following frames left behind it and every byte of the first frame replaced by 5 values — the stream decoder must do exactly what decoding the declared frames one by one in isolation does —, length prefixes MAX / MAX+1 / u32::MAX, and encode several frames into one shared buffer; (B) every decoder (frame, SignedEntry, ProtocolMessage, AuthorHeads, DocTicket bytes and string form, Capability::from_raw over all 256 kinds, FilterKind::from_str, DownloadPolicy, the hex text form of Author / NamespaceSecret / AuthorId / NamespaceId / the two public-key types) on every byte string up to length 2 (3 in thorough) and on every single-byte replacement (position x 255 values; a 4-value subset beyond the first 48 bytes in the quick tier) of valid encodings, each call under catch_unwind; values that decode are exercised (accessors, signature verification, processing by a real replica); (C) pinned encodings: the suite's three hex snapshots and, for every entry of the universe, equality with an independent hand-written layout encoder; non-trivial = distinct inputs that decode successfully after a corruption, or chunkings that cut inside a frame",
         assumptions: &[
             "\"arbitrary bytes\" is replaced by its exhaustive small-scope counterpart: all strings up to 3 bytes and all single-byte replacements of valid encodings",
         ],
         bound: |t| match t {
-            Tier::Quick => json!({"A": "transcripts of S12<=2 pairs (distinct transcripts only)", "B": "strings <= 2 bytes; replacements: 255 values on the first 48 bytes, 4 values beyond; 6 messages", "C": "U63 x 2 authors"}),
-            Tier::Thorough => json!({"A": "same, three-way splits for all transcripts <= 800 bytes", "B": "strings <= 3 bytes; 255 values at every position; 24 messages", "C": "U63 x 2 authors"}),
+            Tier::Quick => json!({"A0": "12 key lengths", "A": "transcripts of S12<=2 pairs (distinct transcripts only)", "B": "strings <= 2 bytes; replacements: 255 values on the first 48 bytes, 4 values beyond; 6 messages", "C": "U63 x 2 authors"}),
+            Tier::Thorough => json!({"A0": "12 key lengths", "A": "same, three-way splits for all transcripts <= 800 bytes", "B": "strings <= 3 bytes; 255 values at every position; 24 messages", "C": "U63 x 2 authors"}),
         },
         run,
         replay,
@@ -173,6 +173,63 @@ fn check_transcript(frames: &[Frame], three_way_limit: usize) -> (Bad, u64, u64)
 /// bytes to the payload decoder (here: the crate's decoder on an isolated copy of that one frame,
 /// so it cannot look beyond it) and consume `4 + L` bytes. Returns the frames (re-encoded), whether
 /// decoding stopped with an error, and the number of bytes left.
+/// Long keys (and with them long identifiers, messages and frames): every length around the
+/// steps of the encodings' own length prefixes and well beyond. The entry, the messages of a
+/// session that carries it and their frames must survive encode-then-decode, whole and cut.
+fn check_long_keys() -> (Bad, u64) {
+    let mut bad: Bad = vec![];
+    let mut evals = 0u64;
+    for len in [63usize, 64, 127, 128, 1000, 4032, 4033, 4096, 4097, 16383, 16384, 20000] {
+        let spec = Spec::new(0, 0, &vec![b'k'; len], 1, Val::X);
+        let wit = json!({"key_len": len});
+        let e = spec.signed();
+        evals += 1;
+        match postcard::to_stdvec(&e).map_err(|e| e.to_string()).and_then(|b| postcard::from_bytes::<SignedEntry>(&b).map_err(|e| e.to_string())) {
+            Ok(back) if back == e => {}
+            other => bad.push(("entry_survives_encode_decode", wit.clone(), format!("signed entry with a key of {len} bytes: {:?}", other.map(|_| "decoded to a different entry")))),
+        }
+        // the messages of a real session carrying it (A holds it, B holds another entry)
+        let other = Spec::new(0, 1, b"x", 1, Val::X);
+        let ns = ns_id(0);
+        let mut pa = Party::build(BackendKind::Mem, 0, &[spec.clone()]);
+        let mut pb = Party::build(BackendKind::Mem, 0, &[other]);
+        let s = match run_session(&mut pa, &mut pb, ns, DEFAULT_CFG, 64, None) {
+            Ok(s) => s,
+            Err(e) => {
+                bad.push(("message_survives_encode_decode", wit.clone(), format!("session carrying a key of {len} bytes failed: {e:#}")));
+                continue;
+            }
+        };
+        for (i, bytes) in s.transcript.iter().enumerate() {
+            evals += 1;
+            let m: ProtocolMessage = match postcard::from_bytes(bytes) {
+                Ok(m) => m,
+                Err(e) => {
+                    bad.push(("message_survives_encode_decode", wit.clone(), format!("message {i} of a session carrying a key of {len} bytes does not decode from its own encoding: {e}")));
+                    continue;
+                }
+            };
+            let frame = if i == 0 { Frame::Init { namespace: ns, message: m } } else { Frame::Sync(m) };
+            let enc = encode(&frame);
+            let mut cuts = vec![0usize, 1, 3, 4, 5, enc.len() / 2, enc.len() - 1];
+            cuts.retain(|c| *c < enc.len());
+            for cut in cuts {
+                evals += 1;
+                let chunks: Vec<&[u8]> = if cut == 0 { vec![&enc[..]] } else { vec![&enc[..cut], &enc[cut..]] };
+                match decode_chunks(&chunks) {
+                    Ok((frames, 0)) if frames.len() == 1 && frame_eq(&frames[0], &frame) => {}
+                    Ok((frames, rest)) => bad.push(("frame_survives_encode_decode", wit.clone(), format!("frame {i} ({} bytes, key of {len} bytes) cut at {cut}: {} frames decoded, {rest} bytes left", enc.len(), frames.len()))),
+                    Err(e) => bad.push(("frame_survives_encode_decode", wit.clone(), format!("frame {i} ({} bytes, key of {len} bytes) cut at {cut}: {e}", enc.len()))),
+                }
+            }
+        }
+        if pa.dump(ns) != pb.dump(ns) {
+            bad.push(("message_survives_encode_decode", wit.clone(), format!("session carrying a key of {len} bytes did not converge")));
+        }
+    }
+    (bad, evals)
+}
+
 fn reference_stream(mut buf: &[u8]) -> (Vec<Vec<u8>>, bool, usize) {
     let mut out = vec![];
     loop {
@@ -795,6 +852,20 @@ fn run(ctx: &Ctx, report: &mut Report) {
             }
         }
     }
+    if ctx.shard == 1 % ctx.of {
+        let case = json!({"long_keys": true});
+        match catch(check_long_keys) {
+            Err(p) => report.violation("no_panic", json!({"part": "long keys"}), case, format!("panic: {p}"), 0),
+            Ok((bad, evals)) => {
+                report.evaluations += evals;
+                report.nontrivial += evals;
+                report.count("long_key_evaluations", evals);
+                for (o, w, d) in bad {
+                    report.violation(o, w, case.clone(), d, 0);
+                }
+            }
+        }
+    }
     if ctx.shard == 0 {
         report.evaluations += 3;
         for (o, w, d) in length_prefix_cases() {
@@ -903,6 +974,15 @@ fn replay(case: &Value) -> anyhow::Result<(bool, String)> {
         return match catch(|| decode_with(d, &bytes, &mut replica)) {
             Err(p) => Ok((true, format!("{d:?} on {} bytes: panic {p}", bytes.len()))),
             Ok(r) => Ok((false, format!("{d:?}: {r}"))),
+        };
+    }
+    if case.get("long_keys").is_some() {
+        return match catch(check_long_keys) {
+            Err(p) => Ok((true, format!("panic: {p}"))),
+            Ok((bad, _)) => {
+                let out: String = bad.iter().map(|(o, _, d)| format!("FAILED {o}: {d}\n")).collect();
+                Ok((!bad.is_empty(), format!("long keys\n{out}")))
+            }
         };
     }
     if let Some(t) = case.get("transcript_of") {
